@@ -648,6 +648,25 @@ def fitsLong (o : Opts) (vals : List Int) (cc : Option Cons) : FitsLong :=
       | .val _, .val _ => .signed
       | _, _ => if o.wide then .notFit else .presumed
 
+open Asn1c.Impl.CRange in
+/-- `asn1c_INTEGER_is_unsigned`: the descriptor of the INTEGER needs `field_unsigned` - the type is kept in an
+    `unsigned long` (FL_FITS_UNSIGN), or, under -fwide-types, in an `INTEGER_t` restricted to a non-extensible
+    (lb..MAX) range with 0 ≤ lb ≤ 2^31-1, which is an `unsigned long` without -fwide-types (findings F172 / F173
+    repaired: that descriptor had no specifics, INTEGER_encode_uper / INTEGER__dump took the signed paths) -/
+def integerIsUnsigned (o : Opts) (cc : Option Cons) : Bool :=
+  fitsLong o [] cc == .unsigned ||
+  (o.wide &&
+    match cc with
+    | none => false
+    | some c =>
+      match CTables.resRange (computeTop { req := .value } (some (combinedCT (.value c)))) with
+      | none => false
+      | some r =>
+        !r.ext && !r.empty && !r.incompat && !r.notPER &&
+        (match r.left, r.right with
+         | .val l, .max => decide (0 ≤ l ∧ l ≤ 2147483647)
+         | _, _ => false))
+
 /-! ## the descriptor graph -/
 
 inductive DSpec where
@@ -763,6 +782,12 @@ def fitsLongTy (M : Module) (o : Opts) (t : CTy) : FitsLong :=
   | some (.enumerated _ root ext) => fitsLong o (root ++ ext.getD []) Option.none
   | _ => .notFit
 
+/-- `asn1c_INTEGER_is_unsigned(arg, expr)` (descends to the terminal type) -/
+def integerIsUnsignedTy (M : Module) (o : Opts) (t : CTy) : Bool :=
+  match terminal M M.fuel t with
+  | some (.integer _ c) => integerIsUnsigned o c
+  | _ => false
+
 /-- name and kind of the skeleton descriptor `asn1c_type_name(…, TNF_SAFE)` selects for a basic type -/
 def skelOf (M : Module) (o : Opts) (t : CTy) : String × String :=
   match t with
@@ -796,7 +821,7 @@ def complexContents (M : Module) (o : Opts) : CTy → Bool
   | .constr _ _ _ _ => true
   | .listOf _ _ _ _ => true
   | .enumerated _ _ _ => true
-  | .integer t c => fitsLongTy M o (.integer t c) == .unsigned
+  | .integer t c => integerIsUnsignedTy M o (.integer t c)
   | _ => false
 
 /-- `ASN_EXPR_TYPE2STR` for the anonymous element type of SEQUENCE OF / SET OF -/
@@ -824,7 +849,7 @@ def intSpec (M : Module) (o : Opts) (names : List String) (t : CTy) : DSpec :=
     let vals := root ++ ext.getD []
     let pairs := vals.zip (names ++ List.replicate (vals.length - names.length) "?")
     .int 0 1 (if ext.isSome then root.length + 1 else 0) (sortBy (fun a b => decide (a.1 ≤ b.1)) pairs)
-  | some (.integer _ c) => if fitsLong o [] c == .unsigned then .int 1 0 0 [] else .none
+  | some (.integer _ c) => if integerIsUnsigned o c then .int 1 0 0 [] else .none
   | _ => .none
 
 /-- `compar_cameo` keys + `compute_canonical_members_order`: (to_canonical, from_canonical) as emitted, [] / []
@@ -883,7 +908,7 @@ def memberMode (M : Module) (o : Opts) (t : CTy) : Int :=
     | _ => true
   let own := match t with
     | .enumerated _ _ _ => true
-    | .integer tg c => fitsLongTy M o (.integer tg c) == FitsLong.unsigned
+    | .integer tg c => integerIsUnsignedTy M o (.integer tg c)
     | _ => false
   match t.tag with
   | some g => if plain then (if g.mode == .imp then -1 else if own then 0 else 1) else 0
